@@ -7,11 +7,11 @@ SPEC = {
     "driver": "Driver/C24.lean",
     "needs_plz": False,
     "level": "proof",
-    "level_text": "partial: proved for every graph, package layout and file set — a target that consumes a changed file as a source or as "
-                  "data, in the closest package above the file, is marked changed (ownership lemma), and with an unlimited level everything "
-                  "affected (consumers, targets diffGraphs found changed, and all their transitive dependents) is reported. "
-                  "Not covered by the theorem and VIOLATED by the code (direct oracle; one Lean witness): files used as local tools; "
-                  "definition changes that collide in the unframed rule hash of C08. Paths are modelled as component lists of clean "
+    "level_text": "partial: proved for every graph, package layout and file set — a target that consumes a changed file as a source, as "
+                  "data or (since the fix: commit 8e86b2b) as a local file tool, in the closest package above the file, is marked changed "
+                  "(ownership lemma), and with an unlimited level everything affected (consumers, targets diffGraphs found changed, and all "
+                  "their transitive dependents) is reported. Not covered by the theorem and VIOLATED by the code (direct oracle): "
+                  "definition changes that collide in the unframed rule hash of C08 (changed0 is an input of the model). Paths are modelled as component lists of clean "
                   "relative paths; RuleHash, scm and BUILD evaluation are not modelled (changed0 is an input of the model)",
     "technique": "Lean 4 proofs (closest-package walk finds the consumer's package; BFS closure of FindRevdeps without a limit) over a "
                  "transcription of changedTargets/HasSource + regenerated facts + differential correspondence with an independent oracle",
@@ -20,14 +20,14 @@ SPEC = {
         "correspondence harness/cmd/c24 vs Driver/C24.lean: exact label set of query.Changes / query.DiffGraphs on random package trees (nested packages, directories without "
         "BUILD files, root package), directory sources, data files, label sources, file tools, levels 0/N/unlimited, before/after graphs with single-attribute edits",
         "modelled, not verified: Model/Changes.lean (changedTargets, HasAbsoluteSource) and Model/Query.lean (FindRevdeps)",
-        "direct oracle: independent closest-package / consumption / reverse-closure computation in the harness, with class predicates for the two known root causes",
+        "direct oracle: independent closest-package / consumption / reverse-closure computation in the harness, with class predicates for the known (C08 rule hash) and the repaired (file tool) root causes",
     ],
     "assumptions": [
         "file names, package names and source strings are clean relative paths (no empty components, no ./ or trailing /)",
         "a target only consumes files whose closest enclosing package is its own (plz rejects sources that cross a package boundary)",
         "no include/exclude label filters, no subrepos; packages that subinclude a changed build_defs target are not followed (FindRevdeps is called with followSubincludes=false)",
     ],
-    "explanation": "C24_ownership and C24_superset hold for all inputs; C24_witness_file_tool exhibits the tool finding; the rule-hash finding is C08's and is planted as the first generated case of every run.",
+    "explanation": "C24_ownership and C24_superset hold for all inputs, file tools included; the repaired tool finding is replayed from corpus/C24/fixed-*.ops; the rule-hash finding is C08's and is planted as the first generated case of every run.",
 }
 
 MUTATIONS = """
@@ -43,4 +43,7 @@ output directories (shared lake lock saturated), the two known classes loaded.
  M1 changes.go `break` after the closest package removed               -> C24_facts_ok fails; 2 disagreements (a farther package also claims the file);
       over-reporting is not a miss: exit 1 with proof-broken / correspondence-broken `no-failing-input-found`
  H1 harmless: locals renamed in changes.go (filename->fn, pkgName->pn, labels->lbls) -> facts identical, 0 disagreements, only the two known classes
+Fix phase: changes-file-tool-not-a-source repaired in /repo (8e86b2b). Re-introducing it (`git revert -n`) on a scratch clone:
+ class changes-file-tool-not-a-source again on corpus/C24/fixed-*.ops and 1333 generated inputs; 992 disagreements; C24_facts_ok fails.
+changes-rulehash-unframed is C08's defect (src/build/incrementality.go) and is left to C08.
 """
